@@ -261,7 +261,7 @@ Lemma frame_node_walk ns f p c :
 Proof.
   destruct f as [i d k l|i d k|b i k]; simpl.
   - intros (n & H1 & [H2 H2'] & H3 & H4 & H5 & H6). exists n. repeat split; auto.
-    destruct H2' as [(B & _)|(B & _)]; [destruct (n_sec n); try discriminate; reflexivity|rewrite B; reflexivity].
+    destruct H2' as [(B & _)|[(B & _)|(B & _)]]; [destruct (n_sec n); try discriminate; reflexivity|rewrite B; reflexivity|rewrite B; reflexivity].
   - intros (n & H1 & H2 & H3 & H4 & H5 & H6 & H7). exists n. repeat split; auto. rewrite H2. reflexivity.
   - intros (n & H1 & H2 & H3 & H4 & H5 & H6 & H7). exists n. repeat split; auto. rewrite H2. reflexivity.
 Qed.
